@@ -153,12 +153,29 @@ func newScenario(prop, kind string, seed uint64) (*Scenario, *SplitMix) {
 }
 
 // runSeqGenerated: generate-and-run a sequential scenario for prop.
-func runSeqGenerated(bin, prop string, seed uint64) *RunReport {
+// hung turns the watchdog's verdict on a simulated process (it burns CPU and
+// never reaches a system call) into a violation of "every command terminates"
+// that carries the scenario so far, so that it can be replayed.
+func (r *Run) hung(rep **RunReport, x any) {
+	e, ok := x.(WatchdogSpin)
+	if !ok {
+		panic(x)
+	}
+	r.viol("C12", "non-termination", "hang", "ergo %v burned %.0f s of CPU without reaching a system call", e.Argv, spinCPU)
+	*rep = r.Report()
+}
+
+func runSeqGenerated(bin, prop string, seed uint64) (rep *RunReport) {
 	sc, rng := newScenario(prop, "seq", seed)
 	g := NewGen(rng.Uint64())
 	n := seqProfile(prop, g, &sc.Config, rng)
 	r := NewRun(bin, sc)
 	defer r.Close()
+	defer func() {
+		if x := recover(); x != nil {
+			r.hung(&rep, x)
+		}
+	}()
 	r.InitStore()
 	if prop == "C20" || prop == "C05" && rng.Chance(1, 2) {
 		// the agent's work products exist before they are attached
@@ -326,9 +343,14 @@ func (r *Run) Report() *RunReport {
 }
 
 // ReplayScenario runs a recorded scenario (no generator involved).
-func ReplayScenario(bin string, sc *Scenario) *RunReport {
+func ReplayScenario(bin string, sc *Scenario) (rep *RunReport) {
 	r := NewRun(bin, sc)
 	defer r.Close()
+	defer func() {
+		if x := recover(); x != nil {
+			r.hung(&rep, x)
+		}
+	}()
 	r.InitStore()
 	for _, st := range sc.Steps {
 		r.ExecStep(st)
